@@ -37,6 +37,10 @@ pub struct ChanSpec {
     /// single-byte substitution in the header region (LCT header, extensions, FEC payload id)
     #[serde(default)]
     pub p_mutate_header: f64,
+    /// field-aware edit (transfer length 0 / +-1, E, B, SBN, ESI, flags, cenc, FDT instance id, TOI, dropped
+    /// EXT_FTI ...) re-encoded by the harness encoder: a well-formed packet that lies
+    #[serde(default)]
+    pub p_field_edit: f64,
 }
 
 impl ChanSpec {
@@ -51,6 +55,7 @@ impl ChanSpec {
             p_extend: 0.0,
             skip_first: 0,
             p_mutate_header: 0.0,
+            p_field_edit: 0.0,
         }
     }
 }
@@ -62,7 +67,72 @@ pub struct ChanStats {
     pub reordered: bool,
     pub corrupted: u32,
     pub header_mutated: u32,
+    pub field_edited: u32,
     pub delivered: u32,
+}
+
+pub const N_FIELD_EDITS: u64 = 22;
+
+/// The `v`-th (1-based) field-aware edit of a decoded packet, re-encoded; None when it does not apply.
+pub fn field_edit(d: &crate::wire::Decoded, v: u64) -> Option<Vec<u8>> {
+    use crate::wire;
+    let mut b = wire::to_build(d);
+    let has_fti = b.fti.is_some();
+    match v {
+        1..=9 | 17 | 19 | 20 if !has_fti => return None,
+        _ => {}
+    }
+    match v {
+        1 => b.fti.as_mut()?.transfer_length = 0,
+        2 => b.fti.as_mut()?.transfer_length = 1,
+        3 => {
+            let f = b.fti.as_mut()?;
+            f.transfer_length = f.transfer_length.saturating_sub(1)
+        }
+        4 => b.fti.as_mut()?.transfer_length += 1,
+        5 => b.fti.as_mut()?.transfer_length *= 2,
+        6 => {
+            let f = b.fti.as_mut()?;
+            f.e = (f.e / 2).max(1)
+        }
+        7 => b.fti.as_mut()?.e *= 2,
+        8 => b.fti.as_mut()?.b = Some(1),
+        9 => {
+            let f = b.fti.as_mut()?;
+            f.b = Some(f.b.unwrap_or(1) + 1)
+        }
+        10 => b.sbn += 1,
+        11 => b.esi += 1,
+        12 => b.esi += 1000,
+        13 => b.sbl += 1,
+        14 => b.close_object = !b.close_object,
+        15 => b.cenc = Some(match b.cenc { Some(0) | None => 3, Some(_) => 0 }),
+        16 => {
+            let (ver, id) = b.fdt?;
+            b.fdt = Some((ver, (id + 1) & 0xFFFFF))
+        }
+        17 => b.fti = None,
+        18 => {
+            if b.toi == 0 {
+                return None;
+            }
+            b.toi += 1;
+            let (tl, ol) = wire::field_lens(b.tsi, b.toi);
+            b.tsi_len = tl;
+            b.toi_len = ol;
+        }
+        19 => {
+            let f = b.fti.as_mut()?;
+            f.max_n = f.max_n.map(|x| x.saturating_sub(1))
+        }
+        20 => {
+            let f = b.fti.as_mut()?;
+            f.transfer_length /= 2
+        }
+        21 => b.sbn = b.sbn.wrapping_sub(1),
+        _ => b.payload.truncate(b.payload.len() / 2),
+    }
+    Some(wire::encode(&b))
 }
 
 pub fn nth_permutation(n: usize, mut index: u64) -> Vec<usize> {
@@ -232,6 +302,18 @@ pub fn apply(spec: &ChanSpec, ctx: &Ctx, trace: &SenderTrace, label: &str) -> (V
                     bytes[pos] = val;
                     st.corrupted += 1;
                     st.header_mutated += 1;
+                }
+            }
+        }
+        if spec.p_field_edit > 0.0 {
+            let v = ctx.borrow_mut().fault_val(&format!("field-edit/{}", label), spec.p_field_edit, N_FIELD_EDITS);
+            if v > 0 {
+                if let Some(b) = field_edit(&p.dec, v) {
+                    if b != bytes {
+                        bytes = b;
+                        st.corrupted += 1;
+                        st.field_edited += 1;
+                    }
                 }
             }
         }
